@@ -151,6 +151,31 @@ theorem C18_encode_injective (a b : List UInt8) (hne : a ≠ []) (hab : a.length
     (h : encode a = encode b) : a = b :=
   encode_injective_same_length a b (List.length_pos_iff.mpr hne) hab h
 
+/-- Functional description of the encoder (the specification the judge applies to the real crate's
+output): the token is the fixed-width base-32 numeral, most significant digit first, of the little-endian
+number the bytes denote; `⌈8·len / 5⌉` digits. Nothing of the input is lost: all 192 RNG bits of a 24-byte
+input are in the 39 characters. -/
+theorem C18_token_numeral (bs : List UInt8) (hne : bs ≠ []) (s : List Char) (h : encode bs = some s) :
+    numeralValue s = some (leValue bs) ∧ s.length = (bs.length * 8 + 4) / 5 ∧
+      leValue bs < 2 ^ (8 * bs.length) := by
+  have hlen : 0 < bs.length := List.length_pos_iff.mpr hne
+  refine ⟨numeralValue_encode bs hlen s h, ?_, leValue_lt bs⟩
+  rw [encode_length bs hlen s h]
+  unfold ndigits
+  omega
+
+/-- From the wire to the path (origin-form request-targets `"/…"`, the form browsers send): the path the
+service function sees is a prefix of the request-target (everything before the first `?` / `#`), so a
+request is treated as being under the secret prefix only if the request-target itself literally begins
+with it — a token in the query string or fragment does not count. -/
+theorem C18_origin_form_literal (rest pfx p : List Char) (hp : pathOfTarget ('/' :: rest) = some p)
+    (h : pfx <+: p) : pfx <+: '/' :: rest := by
+  have : p = ('/' :: rest).takeWhile (! isPathEnd ·) := by
+    simp only [pathOfTarget] at hp
+    exact (Option.some.inj hp).symm
+  rw [this] at h
+  exact List.IsPrefix.trans h (List.takeWhile_prefix _)
+
 /-! ### Non-vacuity and boundary examples -/
 
 /-- the model's own token for the bytes 0,1,…,23 -/
